@@ -18,6 +18,19 @@ def handleCluster (fs : List (List String)) : Option String :=
     let cfg : Cfg := ⟨linkOf (nat! l), lm == "1", un == "1"⟩
     let tr := trace cfg M (flt! t) n (init n)
     some ("T " ++ " / ".intercalate (tr.map stOut))
+  | [["chainok"], tr] =>
+    -- states separated by "/" ; entries key:m1,m2
+    let parseSt (toks : List String) : St := toks.map fun tok =>
+      match tok.splitOn ":" with
+      | [k, ms] => (nat! k, (ms.splitOn ",").map nat!)
+      | _ => (0, [])
+    let rec split (toks : List String) (cur : List String) (acc : List (List String)) : List (List String) :=
+      match toks with
+      | [] => (cur.reverse :: acc).reverse
+      | "/" :: r => split r [] (cur.reverse :: acc)
+      | x :: r => split r (x :: cur) acc
+    let states := (split tr [] []).map parseSt
+    some (if chainOkb states then "ok" else "no")
   | _ => none
 
 end Verif.Driver
